@@ -116,7 +116,8 @@ def check(prop, tier, seed):
         rstats[name] = {"race_reports_with_repo_frames": len(found)}
         for sig, rep in found:
             races.setdefault(sig, (name, rep))
-        if p.returncode not in (0, 66):
+        if p.returncode not in (0, 66) and not found:
+            # (with race reports in hand the way the process ended does not matter: they are the finding)
             run.driver_failed("pool workload (race build) failed: %s" % name, se)
     for p, out, sh, proto, israce in jobs:
         try:
@@ -130,7 +131,7 @@ def check(prop, tier, seed):
             rstats[name] = {"race_reports_with_repo_frames": len(found)}
             for sig, rep in found:
                 races.setdefault(sig, (name, rep))
-            if p.returncode not in (0, 66):
+            if p.returncode not in (0, 66) and not found:
                 run.driver_failed("multi-conn (race build) failed on %s" % (name), se)
         elif p.returncode != 0:
             run.driver_failed("multi-conn failed on %s" % (name), se)
